@@ -475,10 +475,37 @@ class C07Monitor(Monitor):
                   streams=streams, restarted=self.restarted, restart_locked=self.restart_locked,
                   workers=int(st.workers), c0=self.c0)
 
+    @staticmethod
+    def _engine_classes():
+        try:
+            from infretis.core import tis
+            return {type(e) for lst in tis.ENGINES.values() for e in lst if hasattr(type(e), "used_streams")}
+        except Exception:       # noqa
+            return set()
+
     def pre_job(self, jid, job):
         self.g0 = global_rng_digest()
+        for cls in self._engine_classes():
+            del cls.used_streams[:]
 
     def post_job(self, jid, job, out):
+        # every propagation of this job drew from one of the engine streams handed to this job
+        allowed = set()
+        for e in job["picked"]:
+            g = job["picked"][e].get("rgen-eng")
+            if g is not None:
+                sid = stream_id(g)
+                allowed.add((sid["entropy"], tuple(sid["key"])))
+        for cls in self._engine_classes():
+            for ent, key in cls.used_streams:
+                if (int(ent) if ent is not None else None, tuple(key)) not in allowed:
+                    self.sim.violate("C07", "engine_drew_from_foreign_stream",
+                                     f"job {jid} (ens {list(job['picked'])}): an engine propagated with the "
+                                     f"stream entropy={ent} key={list(key)}, the job's engine streams are "
+                                     f"{sorted(allowed)}", site=self.sim.scn.get("engine"))
+                    break
+            self.sim.k.probe("engine_stream_use_checked")
+            del cls.used_streams[:]
         g1 = global_rng_digest()
         if g1 != self.g0:
             self.sim.violate("C07", "global_rng_used",
@@ -832,7 +859,8 @@ class C14Monitor(Monitor):
                     sim.violate("C14", "roundtrip_order", f"path {pn} frame {k}: stored {oa}, loaded {ob}")
                 for key in ("vpot", "ekin"):
                     va, vb = getattr(a, key, None), getattr(b, key, None)
-                    if va is not None and (vb is None or abs(float(va) - float(vb)) > 1e-6 * max(1, abs(float(va)))):
+                    if va is not None and float(va) == float(va) and (vb is None or not (abs(float(va) - float(vb))
+                                                                <= 1e-6 * max(1, abs(float(va))))):    # nan fails
                         sim.violate("C14", "roundtrip_energy", f"path {pn} frame {k} {key}: {va} vs {vb}")
         # ---- replaced paths
         if md.get("status") == "ACC":
